@@ -523,11 +523,48 @@ class Interp(object):
 
 
 # ---------------------------------------------------------------------- flip summaries derived from the helpers' own bodies
-def derive_flip(m, name):
-    """run the LAYOUT interpreter over compatibility.<name> for the two candidate input layouts; the one that is LY1-clean
-    is the contract: -> (accepts 'canonical'|'u-fastest', returns Lay over P.Su/P.Sv)"""
+def derive_flip_on_labels(m, name):
+    """the contract of compatibility.<name>(list, size_u, size_v), decided by interpreting it (SKEL) on lists of labelled points for
+    three non-square size pairs: 'u-fastest' if for every (u, v) the point at v + size_v * u of the result is the input point at
+    u + size_u * v (it turns a u-fastest list into the canonical one), 'canonical' if the result at u + size_u * v is the input at
+    v + size_v * u; None if neither holds for all sizes"""
+    from . import skel
     fi = m.func('compatibility.' + name)
+    verdict = None
+    for su, sv in ((2, 3), (3, 2), (4, 3)):
+        inp = [[skel.Tok('DEF', dep=frozenset([(k, c)])) for c in range(2)] for k in range(su * sv)]
+        sk = skel.SK(m, {})
+        try:
+            out = sk.call(fi, [inp, su, sv], {})
+        except (skel.Violation, skel.Unsupported):
+            return None
+        if not isinstance(out, list) or len(out) != su * sv:
+            return None
+        lab = []
+        for p in out:
+            f = skel.footprint(p) if isinstance(p, (list, tuple)) else None
+            ks = {x[0] for x in f} if f else set()
+            if len(ks) != 1:
+                return None
+            lab.append(next(iter(ks)))
+        uf = all(lab[v + sv * u] == u + su * v for u in range(su) for v in range(sv))
+        ca = all(lab[u + su * v] == v + sv * u for u in range(su) for v in range(sv))
+        here = 'u-fastest' if uf and not ca else ('canonical' if ca and not uf else None)
+        if here is None or (verdict is not None and verdict != here):
+            return None
+        verdict = here
+    return verdict
+
+
+def derive_flip(m, name):
+    """the contract of a flip helper: decided on labelled lists (spelling-independent); when that is not conclusive, by running the LAYOUT
+    interpreter over compatibility.<name> for the two candidate input layouts - the one that is LY1-clean is the contract:
+    -> (accepts 'canonical'|'u-fastest', returns Lay over P.Su/P.Sv)"""
     su, sv = Poly.atom('P.Su'), Poly.atom('P.Sv')
+    sem = derive_flip_on_labels(m, name)
+    if sem is not None:
+        return sem, Lay([[('P.v', sv), ('P.u', su)]] if sem == 'u-fastest' else [[('P.u', su), ('P.v', sv)]])
+    fi = m.func('compatibility.' + name)
     ps = params_of(fi.node)
     res = None
     for inp_name, inp in (('canonical', [('P.v', sv), ('P.u', su)]), ('u-fastest', [('P.u', su), ('P.v', sv)])):
